@@ -407,7 +407,9 @@ func ringRun(k int, ops []int64) string {
 		op, v := int(ops[i]), int(ops[i+1])
 		switch op {
 		case 0:
-			r = r.Move(v)
+			if r != nil {
+				r = r.Move(v)
+			}
 		case 1:
 			if r != nil {
 				q := r.Unlink(v)
